@@ -44,7 +44,7 @@ func hostStack() string {
 	for _, l := range lines {
 		if strings.Contains(l, "gosym") && strings.Contains(l, ".go:") {
 			keep = append(keep, strings.TrimSpace(l))
-			if len(keep) >= 6 {
+			if len(keep) >= 16 {
 				break
 			}
 		}
